@@ -196,7 +196,7 @@ impl Prop for C16 {
     }
     fn runs(&self, tier: Tier) -> u64 {
         match tier {
-            Tier::Quick => 1200,
+            Tier::Quick => 2400,
             Tier::Thorough => 12_000,
         }
     }
